@@ -391,6 +391,24 @@ func genDedup(g *gen, repo string) {
 		fail("getOrCreateConn: the two peer-table look-ups were not recognised")
 	}
 	fmt.Fprintf(&b, "/-- dtls/server createConn and udp/server getOrCreateConn create their connections with the default response cache of udp/client (no WithResponseMessageCache option) (AST) -/\ndef dtlsServerConnDefaultCache : Bool := %s\ndef udpServerConnDefaultCache : Bool := %s\n", drLeanBool(dtlsDefault), drLeanBool(udpDefault))
+	// Serve: the local address a datagram is keyed under is a fresh copy for every datagram
+	// (`laddr, err := s.getListenerLocalAddr(l)` inside the read loop, which then overwrites laddr.IP with cm.Dst)
+	srvFn := funcDecl(fu, "Server", "Serve")
+	perDatagram := false
+	ast.Inspect(srvFn, func(x ast.Node) bool {
+		if fs, ok := x.(*ast.ForStmt); ok {
+			for _, c := range drCallsIn(fs.Body, "s.getListenerLocalAddr") {
+				_ = c
+				perDatagram = true
+			}
+		}
+		return true
+	})
+	outside := len(drCallsIn(srvFn, "s.getListenerLocalAddr"))
+	if outside == 0 {
+		fail("Serve: getListenerLocalAddr call not found")
+	}
+	fmt.Fprintf(&b, "/-- udp/server Serve takes the listener's local address anew (a copy) for every datagram before it overwrites its IP with the datagram's destination (AST) -/\ndef udpLocalAddrCopiedPerDatagram : Bool := %s\n", drLeanBool(perDatagram))
 	fmt.Fprintf(&b, "/-- udp/server getOrCreateConn looks the peer up under the concrete local address before it falls back to the wildcard key (AST) -/\ndef udpPeerLookupConcreteFirst : Bool := %s\n", drLeanBool(concretePos < wildcardPos))
 	b.WriteString("\nend CoapVerif.Generated.Dedup\n")
 	g.write("Dedup.lean", b.String())
